@@ -20,7 +20,7 @@ pub struct C14;
 const IDLE: u16 = 0x8000; // JR $
 const HANDLER: u16 = 0xBDBD; // EI; RET
 
-pub const DIRT: [&str; 9] = ["fresh", "halted", "mid_prefix", "ei_pending", "paging_locked", "border_im_iff", "ran_program", "ay_programmed", "stopped_mid_frame"];
+pub const DIRT: [&str; 10] = ["fresh", "halted", "mid_prefix", "ei_pending", "paging_locked", "border_im_iff", "ran_program", "ay_programmed", "stopped_mid_frame", "after_rejected_load"];
 
 /// A state whose program idles (so that continuation is well defined) but whose registers, RAM,
 /// paging, border and AY contents are arbitrary.
@@ -108,6 +108,35 @@ pub fn dirty_receiver(e: &mut Emu, kind: usize, rng: &mut Rng, m128: bool) {
             write_mem(e, 0x8800, &[0x3E, 0x05, 0xD3, 0xFE, 0x76]);
             st.to_impl(e.verif_cpu());
             let _ = run_frames(e, 2);
+        }
+        9 => {
+            // the receiver has just rejected a file (truncated SZX of the right model, SNA of the other
+            // model, garbage) while it was running a program with paging locked
+            if m128 {
+                e.verif_bus().write_io(0x7FFD, 0x20 | (rng.u8() & 0x1F));
+            }
+            write_mem(e, 0x8800, &[0xFB, 0x18, 0xFE]);
+            st.im = 2;
+            st.to_impl(e.verif_cpu());
+            let _ = step_public(e);
+            use rustzx_core::host::Snapshot;
+            match rng.below(3) {
+                0 => {
+                    let mut s = SnapState::new(m128);
+                    s.cpu.sp = 0x9000;
+                    let full = write_szx(&s, &SzxOptions::default());
+                    let cut = 40 + rng.below(full.len() as u64 / 2) as usize;
+                    let _ = e.load_snapshot(Snapshot::Szx(SimAsset::plain(full[..cut].to_vec())));
+                }
+                1 => {
+                    let mut v = vec![0u8; if m128 { 49179 } else { 131103 }];
+                    v[25] = 1;
+                    let _ = e.load_snapshot(Snapshot::Sna(SimAsset::plain(v)));
+                }
+                _ => {
+                    let _ = e.load_snapshot(Snapshot::Sna(SimAsset::plain(rng.bytes(300))));
+                }
+            }
         }
         8 => {
             // the host stopped the machine in the middle of a frame (breakpoint) before loading
@@ -253,7 +282,7 @@ impl Property for C14 {
         }
     }
     fn rule(&self) -> &'static str {
-        "kind 0: a seeded state (all registers, IFFs, IM, paging incl. lock, border, every RAM page, AY registers) encoded as SNA or SZX (chunk order permuted, pages stored or zlib-compressed, unknown chunks, optional AY/KEYB/AMXM/CRTR chunks) and loaded through a chunking asset into a dirty receiver (halted, mid prefix chain, EI pending, paging locked on another bank, other border/IM/IFF, after a program ran, AY programmed, stopped by a breakpoint in the middle of a frame) and into a fresh one: field-by-field comparison, display vs RefScreen, identical continuation of both receivers, AY read-back and PCM vs a twin programmed through the ports, joystick/mouse presence; kind 1: SZX HALTED / EILAST flags; kind 2: the same state as SNA, stored SZX and compressed SZX must continue identically; kind 3: model mismatch matrix; kind 4: SCR. distinct = (kind, format, encoding options, machine pair, receiver dirt kind, flags)"
+        "kind 0: a seeded state (all registers, IFFs, IM, paging incl. lock, border, every RAM page, AY registers) encoded as SNA or SZX (chunk order permuted, pages stored or zlib-compressed, unknown chunks, optional AY/KEYB/AMXM/CRTR chunks) and loaded through a chunking asset into a dirty receiver (halted, mid prefix chain, EI pending, paging locked on another bank, other border/IM/IFF, after a program ran, AY programmed, stopped by a breakpoint in the middle of a frame, having just rejected another file) and into a fresh one: field-by-field comparison, display vs RefScreen, identical continuation of both receivers, AY read-back and PCM vs a twin programmed through the ports, joystick/mouse presence; kind 1: SZX HALTED / EILAST flags; kind 2: the same state as SNA, stored SZX and compressed SZX must continue identically; kind 3: model mismatch matrix; kind 4: SCR. distinct = (kind, format, encoding options, machine pair, receiver dirt kind, flags)"
     }
     fn state_measure(&self) -> &'static str {
         "distinct (format, machine, receiver dirt kind, paged bank, lock) combinations compared"
@@ -289,7 +318,7 @@ impl Property for C14 {
         sc.set("m128", rng.bool() as i64);
         sc.set("fmt", rng.range(0, 1));
         sc.set("seed", (rng.next() >> 8) as i64);
-        sc.set("dirt", rng.range(0, 8));
+        sc.set("dirt", rng.range(0, 9));
         sc.set("chunk", *rng.pick(&[0i64, 0, 1, 13, 1000, 16384]));
         sc.set("oseed", (rng.next() >> 8) as i64);
         sc.set("conv", rng.range(0, 1));
@@ -301,7 +330,7 @@ impl Property for C14 {
         let m128 = sc.get("m128") != 0;
         let fmt = sc.get("fmt").clamp(0, 1) as usize;
         let kind = sc.get("kind");
-        let dirt = sc.get("dirt").clamp(0, 8) as usize;
+        let dirt = sc.get("dirt").clamp(0, 9) as usize;
         let chunk = sc.get("chunk").max(0) as usize;
         let mut rng = Rng::new(sc.get("seed") as u64);
         let mut orng = Rng::new(sc.get("oseed") as u64);
